@@ -260,6 +260,22 @@ prop("C11", "every blocking call returns on cancel or connection end", "fault_en
                   "with the context finished before the call the answer is withheld too, so that success is not a legitimate outcome"],
      exhaustive_note="the (call, step, cause) grid of the base client is enumerated completely; combinations and reconnect phases are sampled")
 
+prop("C10", "no data races, packets never interleave on the wire", "exploration",
+     "rapid-generated concurrent programs, built with -race: 2..8 goroutines each running 1..8 calls from {Publish q0/q1/q2, "
+     "Subscribe, Unsubscribe, Ping, Handle, Stats, Done, Err, Client} with generated yields, GOMAXPROCS in {2,4,16}, against (i) a "
+     "BaseClient whose peer answers everything and sends 0..12 inbound QoS1/QoS2 messages meanwhile (so the reader goroutine "
+     "writes acknowledgements concurrently), optionally closed under the callers' feet, and (ii) a ReconnectClient with keep-alive "
+     "on while a background goroutine cuts the connection 1..4 times. The transport runs without a lock of its own and yields "
+     "inside Write. Oracle: (1) Go race detector (halt_on_error): a report with a frame in the library's own sources is a "
+     "violation, the case in flight is the replay; (2) no two Transport.Write calls overlap, the strict framer decodes the whole "
+     "client->broker stream of every connection, self-describing payloads verify, first packet of every connection is CONNECT. "
+     "Non-trivial = >= 2 library calls overlapped in time (measured with enter/exit counters) and, for (ii), >= 2 connections; "
+     "distinct = FNV-64 of the case JSON.",
+     [dict(tests="^TestVerifC10_Base$", race=True, checks_quick=1500, checks_thorough=15000, shards=8),
+      dict(tests="^TestVerifC10_Reconnect$", race=True, checks_quick=1500, checks_thorough=15000, shards=8, shards_quick=2)],
+     assumptions=["schedules are sampled (generated yields, GOMAXPROCS, the transport's own yields); absence of races cannot be shown",
+                  "concurrent Ping calls share one response slot by design, so their outcome is not asserted"])
+
 # ---------------------------------------------------------------------------------------------
 # texts for MANIFEST.json (tools/gen_manifest.py)
 
@@ -378,3 +394,9 @@ mtext("C11", "E5 scripted peer stopping exchanges at a step; gated dialer for th
       "exhaustive enumeration of the (call, step, cause) grid + rapid-generated combinations; oracle = call returned, error class, Done closed, reader goroutine gone (goroutine dump)",
       "The finite grid is run completely on every invocation; multi-call combinations and reconnect phases are sampled. A call still parked "
       "20 s after the stimulus is reported with the goroutine dump.", "goroutine dumps identify the reader goroutine by function name", "DESIGN.md section 4 / C11")
+
+mtext("C10", "concurrent program generator on E5 / E3 under the Go race detector",
+      "rapid-generated concurrent API programs run under -race with schedule perturbation; oracle = race detector + write-overlap detector + strict stream framer",
+      "Sampling of programs and schedules; exactly what the property's quantifier text asks for ('sampled with perturbation under the race detector').",
+      "a race report is attributed to the library only if a frame lies in its own sources; reports purely inside the harness make the run inconclusive",
+      "DESIGN.md section 4 / C10")
